@@ -188,6 +188,10 @@ class _P:
             return ['empty']
         it = self.itemtype()
         occ = ''
+        if it[0] == 'function' and it[1] is not None:
+            # occurrence-indicators constraint: an indicator after a typed function test belongs to its
+            # return type; an outer one needs a parenthesized item type
+            return [it, occ]
         if self.peek()[0] == 'p' and self.peek()[1] in '?*+':
             occ = self.next()[1]
         return [it, occ]
@@ -338,6 +342,8 @@ def render(ast, ws=lambda: '') -> str:
     if ast[0] == 'empty':
         return 'empty-sequence' + ws() + '(' + ws() + ')'
     it, occ = ast
+    if occ and it[0] == 'function' and it[1] is not None:
+        it = ['paren', it]          # (function(...) as T)* : see the occurrence-indicators constraint
     return render_item(it, ws) + (ws() + occ if occ else '')
 
 
@@ -780,7 +786,9 @@ def self_test():
         assert parse(render(ast)) == ast, smp
         assert parse(render(ast, lambda: ' \n ')) == ast, smp
     assert render(parse(' function ( xs:int ,item ( ) * )  as  xs:string ? ')) == 'function(xs:int, item()*) as xs:string?'
-    for bad in ('xs:integer??', 'element(a,)', 'function(xs:int)', 'map(item(), xs:int)', 'empty-sequence()?', 'xs:int xs:int', ''):
+    assert parse('(function() as xs:int*)?') == [['paren', ['function', [], [['atomic', 'xs:int'], '*']]], '?']
+    assert render([['function', [], [['atomic', 'xs:int'], '*']], '?']) == '(function() as xs:int*)?'
+    for bad in ('function() as xs:int* ?', 'xs:integer??', 'element(a,)', 'function(xs:int)', 'map(item(), xs:int)', 'empty-sequence()?', 'xs:int xs:int', ''):
         try:
             parse(bad)
         except SeqTypeError:
